@@ -13,6 +13,7 @@ import (
 	"runtime"
 	"strings"
 	"sync"
+	"sync/atomic"
 	"time"
 
 	"verif/harness/lab"
@@ -215,6 +216,9 @@ func runC15Directed(c *Ctx) {
 	r := c.R
 	r.Rule = "directed: applier held, write buffer of size B in {1,2,4,16} filled until a Set is refused, W in {1,3,8} goroutines blocked in Wait on the full buffer (verified in the goroutine profile), then Clear or Close with tokens granted one at a time; distinct by (B, W, Clear/Close, items applied before the applier stopped)"
 	ristretto.VerifSetBucketSeconds(1) // before any cache of this process exists (a package variable of the library)
+	if c.Part == 0 {
+		runSlowClear(c, "C15") // sequential, before any other cache of this process exists (it counts applier goroutines)
+	}
 	var wg sync.WaitGroup
 	defer wg.Wait()
 	for rep := 0; rep < c.N(2, 8); rep++ {
@@ -549,4 +553,129 @@ func c15ClearForgetsFrequencies(c *Ctx, nc int64, windows, extra int) {
 		return
 	}
 	r.DistinctKey("%s/adm%v", name, fresh)
+}
+
+// ---------------------------------------------------------------- Clear while the applier is stalled in a callback
+
+func init() {
+	registry["C05C"] = func(c *Ctx) { runSlowClear(c, "C05") }
+}
+
+// runSlowClear: the applier is kept busy (as a slow user callback would) for 1.5 s while Clear is called; Clear may
+// take as long as it likes, but afterwards the cache must still have exactly one applier: the number of
+// processItems goroutines is compared with the number of open caches (C15), and 200 rounds of Set(new key); Del;
+// Wait; Get with a slow application of new items must all miss (C05: the tombstone and the Wait marker are ordered
+// behind the Set only if a single consumer drains the write buffer).
+func runSlowClear(c *Ctx, prop string) {
+	r := c.R
+	if r.Rule == "" {
+		r.Rule = "directed: applier held 1.5 s at its item hook while Clear is in flight; after Clear returns: exactly one processItems goroutine, then 200 x (Set new key; Del; Wait; Get must miss) with new items applied slowly; distinct by (write-buffer size)"
+	}
+	for i, sb := range []int{0, 4, 64} {
+		if i%c.NParts != c.Part%c.NParts && c.NParts > 1 {
+			continue
+		}
+		slowClearCase(c, prop, sb)
+	}
+}
+
+func countAppliers() int {
+	buf := make([]byte, 4<<20)
+	n := runtime.Stack(buf, true)
+	// the cache's applier only: the policy has a goroutine of the same name for the access batches
+	return strings.Count(string(buf[:n]), "(*Cache[...]).processItems(")
+}
+
+func slowClearCase(c *Ctx, prop string, setbuf int) {
+	r := c.R
+	r.Eval(1)
+	name := fmt.Sprintf("slow-clear-buf%d", setbuf)
+	c.J.Case(name)
+	before := countAppliers()
+	l, err := lab.NewLab(lab.CacheCfg{NumCounters: 10000, MaxCost: 1 << 20, BufferItems: 64, IgnoreInternalCost: true, KeyKind: "uint64", NKeys: 512, SetBuf: setbuf})
+	if err != nil {
+		r.Inconc(1)
+		return
+	}
+	defer l.Forget()
+	cl := l.NewClient()
+	var hold atomic.Bool
+	var slowNew atomic.Bool
+	held := make(chan struct{}, 1)
+	release := make(chan struct{})
+	l.SetHook(func(point int, arg uint64) {
+		if point != ristretto.VPApplierItem {
+			return
+		}
+		if hold.CompareAndSwap(true, false) {
+			held <- struct{}{}
+			<-release
+			return
+		}
+		if slowNew.Load() {
+			time.Sleep(300 * time.Microsecond)
+		}
+	})
+	cl.Set(0, cl.NextVal(0), 1, 0)
+	cl.Wait()
+	hold.Store(true)
+	cl.Set(1, cl.NextVal(1), 1, 0)
+	select {
+	case <-held:
+	case <-time.After(20 * time.Second):
+		r.Inconc(1)
+		close(release)
+		l.C.Close()
+		return
+	}
+	cleared := make(chan struct{})
+	go func() { l.C.Clear(); close(cleared) }()
+	time.Sleep(1500 * time.Millisecond)
+	close(release)
+	select {
+	case <-cleared:
+	case <-time.After(60 * time.Second):
+		r.Inconc(1) // whether Clear returns is C08's / C15's bounded-return clause elsewhere
+		return
+	}
+	time.Sleep(20 * time.Millisecond)
+	r.Obs("slow_clear_cases", 1)
+	if n := countAppliers() - before; n != 1 && prop == "C15" {
+		r.Violate("C15/clear-postcondition/applier-count", fmt.Sprintf("[%s] after a Clear that overlapped a 1.5 s stall of the applier, %d processItems goroutines serve this cache (want 1)", name, n), name)
+		l.C.Close()
+		return
+	}
+	slowNew.Store(true)
+	for i := 0; i < 200; i++ {
+		k := 2 + i
+		v := cl.NextVal(k)
+		if !cl.Set(k, v, 1, 0) {
+			continue
+		}
+		cl.Del(k)
+		cl.Wait()
+		got, hit := cl.Get(k)
+		if !hit {
+			time.Sleep(500 * time.Microsecond)
+			got, hit = cl.Get(k)
+		}
+		r.Obs("del_wait_get_rounds_after_slow_clear", 1)
+		if hit {
+			sig := prop + "/hit-after-del-and-wait"
+			if prop == "C15" {
+				sig = "C15/clear-postcondition/write-order-lost"
+			}
+			r.Violate(sig, fmt.Sprintf("[%s] after a Clear that overlapped a 1.5 s stall of the applier: Set(k%d) ; Del(k%d) ; Wait() ; Get(k%d) = (%#x, true) with no later Set", name, k, k, k, got), name)
+			break
+		}
+	}
+	slowNew.Store(false)
+	l.SetHook(nil)
+	done := make(chan struct{})
+	go func() { lab.Try(func() { l.C.Close() }); close(done) }()
+	select {
+	case <-done:
+	case <-time.After(30 * time.Second):
+	}
+	r.DistinctKey("%s/%s", prop, name)
 }
